@@ -644,6 +644,12 @@ def gen_source(rng, size="small", ver=None, tries=12):
 # focused templates: every kind of scope x signature shape x docstring shape
 def template_source(rng, ver=None):
     ver = tuple((ver or sys.version_info)[:2])
+    if rng.chance(0.002):
+        # the 2^16 boundary: a table with 65537 entries whose entries 65535 and 65536 are used once more at the end
+        # (operands 0xFFFF and 0x10000: two vs three code units)
+        if rng.chance(0.5):
+            return "x = [" + ", ".join("n%d" % i for i in range(65537)) + "]\ny = n65535\nz = n65536\n"
+        return "x = f(" + ", ".join(str(100000 + i) for i in range(65537)) + ")\ny = 165535\nz = 165536\n"
     g = Gen(rng.fork("tmpl"), ver, "small")
     sig = g.signature()
     params = g.last_params
